@@ -359,7 +359,15 @@ func (ex *Exec) conv(dst, src types.Type, x Value) Value {
 			case types.Rune:
 				cs, ok := ex.strConcrete(xv)
 				if !ok {
-					ex.unsupported("[]rune(symbolic string)")
+					// symbolic: supported when every byte within the length is provably ASCII
+					ex.checkOpaque(xv, "[]rune()")
+					n, b := ex.symParts(xv)
+					ex.requireASCII(n, b, "[]rune(symbolic string)")
+					a := make([]Value, len(b))
+					for i := range b {
+						a[i] = tc.ZExt(b[i], 32)
+					}
+					return Slice{a: a, n: n}
 				}
 				var a []Value
 				for _, r := range cs {
@@ -378,16 +386,42 @@ func (ex *Exec) conv(dst, src types.Type, x Value) Value {
 				return ex.byteSliceToStr(xv)
 			}
 			// []rune
-			n := ex.concretizeInt(xv.n, "runes2str")
-			rs := make([]rune, n)
-			for i := 0; i < n; i++ {
-				t := xv.a[i].(*Term)
-				if !t.IsConst() {
-					ex.unsupported("string(symbolic []rune)")
+			allConst := xv.n.IsConst()
+			if allConst {
+				for i := 0; i < int(xv.n.val); i++ {
+					if !xv.a[i].(*Term).IsConst() {
+						allConst = false
+					}
 				}
-				rs[i] = rune(t.Int64())
 			}
-			return mkStr(string(rs))
+			if allConst {
+				n := int(xv.n.val)
+				rs := make([]rune, n)
+				for i := 0; i < n; i++ {
+					rs[i] = rune(xv.a[i].(*Term).Int64())
+				}
+				return mkStr(string(rs))
+			}
+			b := make([]*Term, len(xv.a))
+			wide := make([]*Term, len(xv.a))
+			for i := range b {
+				t, ok := xv.a[i].(*Term)
+				if !ok {
+					t = tc.BV(0, 32)
+				}
+				wide[i] = t
+				b[i] = tc.Extract(t, 8)
+			}
+			// every rune within the length must be provably < 0x80
+			bad := tc.False
+			for i, t := range wide {
+				in := tc.Ult(tc.BV(uint64(i), 64), xv.n)
+				bad = tc.Or(bad, tc.And(in, tc.Not(tc.Ult(t, tc.BV(0x80, 32)))))
+			}
+			if !bad.IsFalse() && ex.sol.CheckWith(bad) != Unsat {
+				ex.unsupported("string(symbolic []rune) with possibly non-ASCII runes")
+			}
+			return ex.normStr(xv.n, b, nil)
 		}
 		if _, ok := ud.(*types.Slice); ok {
 			return xv
@@ -641,4 +675,27 @@ func (ex *Exec) concretizeRange(t *Term, lo, hi int, why string) int {
 		conds = append(conds, ex.tc.Eq(t, ex.tc.BV(uint64(v), t.sort)))
 	}
 	return lo + ex.decide(conds, "concretize-"+why)
+}
+
+// requireASCII ends the path as unsupported unless every byte within the length is provably < 0x80.
+func (ex *Exec) requireASCII(n *Term, b []*Term, what string) {
+	tc := ex.tc
+	bad := tc.False
+	for i, t := range b {
+		if t.IsConst() {
+			if t.val >= 0x80 {
+				in := tc.Ult(tc.BV(uint64(i), 64), n)
+				bad = tc.Or(bad, in)
+			}
+			continue
+		}
+		in := tc.Ult(tc.BV(uint64(i), 64), n)
+		bad = tc.Or(bad, tc.And(in, tc.Not(tc.Ult(t, tc.BV(0x80, 8)))))
+	}
+	if bad.IsFalse() {
+		return
+	}
+	if bad.IsTrue() || ex.sol.CheckWith(bad) != Unsat {
+		ex.unsupported(what + ": possibly non-ASCII bytes (constrain the alphabet)")
+	}
 }
